@@ -369,7 +369,8 @@ PROPS = {
               'value of [min, max], each non-empty and homogeneous (no arm head - literal, inclusive range, exclusive range stored as end-1, binding, signed '
               'or unsigned - distinguishes two values of one constructor); the integer arms of specialize keep an arm exactly when its head matches every '
               'value of the constructor; hence (lemma) for every returned constructor and each of its values v, specialize keeps exactly the arms whose head '
-              'matches v. (3) lowering: the NumUnsigned / NumSigned arms of TypedPattern::compile return a wire that is true exactly when the scrutinee value '
+              'matches v; the integer arms of split_ctor split a variable / wildcard query over the WHOLE value range of the scrutinee type (the real '
+              'UnsignedNumType::max and SignedNumType::min / max are proved to return the bounds of the type) and a literal / range query over its own values. (3) lowering: the NumUnsigned / NumSigned arms of TypedPattern::compile return a wire that is true exactly when the scrutinee value '
               'equals the literal, the Unsigned- / SignedInclusiveRange arms exactly when min <= value <= max (signed or unsigned comparison as the type '
               'demands); the Tuple arm (structural induction: the field patterns are lowered by opaque recursive calls whose contract is the induction '
               'hypothesis) returns a wire that is true exactly when every field pattern matches its slice of the value, field k occupying the wires '
